@@ -49,7 +49,16 @@ def pure_a(repo: Repo) -> List[Ob]:
             w = _self_writes(fi.node)
             key = "enum-member-mutation"
             if w:
-                obs.append(bad("PURE-a", fi, key, ("C15", "C03", "C17"), w[0][0],
+                # what the shared state feeds: a member attribute that compute_dimensions (compute_operator) reads makes the automatic cutoff
+                # (the operator) of one operation depend on what another operation of the same type did before
+                import re as _re
+                attrs = {m_.group(1) for _, d_ in w for m_ in [_re.search(r"self\.(\w+)", d_)] if m_}
+                extra_p: tuple = ()
+                for target, pid in (("compute_dimensions", "C10"), ("compute_operator", "C12")):
+                    tf = ci.methods.get(target)
+                    if tf is not None and any(isinstance(y, ast.Attribute) and isinstance(y.ctx, ast.Load) and src(y.value) == "self" and y.attr in attrs for y in ast.walk(tf.node)):
+                        extra_p += (pid,)
+                obs.append(bad("PURE-a", fi, key, ("C15", "C03", "C17") + extra_p, w[0][0],
                                f"{en}.{mname} {w[0][1]} on the enum member, which is a process-wide singleton shared by every Operation of that type: "
                                "constructing one operation changes what another accepts/does", code="; ".join(sorted({x[1] for x in w}))))
             else:
